@@ -40,7 +40,7 @@ fn clampw(v: f64, bps: usize) -> i32 {
     v.round().clamp(lo, hi) as i32
 }
 
-pub const FAMILIES: [&str; 23] = [
+pub const FAMILIES: [&str; 24] = [
     "silence",
     "dc_min",
     "dc_max",
@@ -64,6 +64,7 @@ pub const FAMILIES: [&str; 23] = [
     "loud_then_quiet",
     "sine_loud_noise",
     "alt_level",
+    "clicks_on_floor",
 ];
 
 /// One channel of `len` samples of family `fam` at width `bps`.
@@ -172,6 +173,21 @@ pub fn gen_channel(rng: &mut Rng, fam: &str, bps: usize, len: usize) -> Vec<i32>
                 *x = s.clamp(lo as i64, hi as i64) as i32;
             }
         }
+        "clicks_on_floor" => {
+            // a low-level noise floor (+-2^k, k in 0..=6) with sparse clicks whose heights are spread
+            // log-uniformly up to 2^(k+9): Rice codes with long unary parts at every quotient value
+            let k = rng.usize_below(7);
+            let floor = 1i64 << k;
+            let every = *rng.pick(&[8usize, 16, 50, 200]);
+            for x in v.iter_mut() {
+                *x = rng.range(-floor, floor) as i32;
+                if rng.usize_below(every) == 0 {
+                    let h = (floor as f64 * (2.0f64).powf(rng.f64() * 9.0)) as i64;
+                    let c = if rng.flip() { h } else { -h };
+                    *x = c.clamp(lo as i64, hi as i64) as i32;
+                }
+            }
+        }
         "alt_level" => {
             // noise whose level switches between two values every `seg` samples (non-stationary:
             // high Rice partition orders, non-unimodal cost-vs-order curves, nearly incompressible
@@ -211,8 +227,19 @@ pub fn gen_channel(rng: &mut Rng, fam: &str, bps: usize, len: usize) -> Vec<i32>
 pub fn gen_audio(rng: &mut Rng, channels: usize, bps: usize, rate: usize, len: usize) -> Audio {
     let mut chans: Vec<Vec<i32>> = Vec::with_capacity(channels);
     let mut recipe = String::new();
-    let stereo_mode = if channels == 2 { rng.usize_below(8) } else { 0 };
+    let stereo_mode = if channels == 2 { rng.usize_below(9) } else { 0 };
     for ch in 0..channels {
+        if channels == 2 && ch == 1 && stereo_mode == 8 {
+            // the RIGHT channel is the clean one: left = right + small noise (right/side wins)
+            let fam = *rng.pick(&FAMILIES);
+            let r = gen_channel(rng, fam, bps, len);
+            let lo = smin(bps) as i64;
+            let hi = smax(bps) as i64;
+            chans[0] = r.iter().map(|x| (*x as i64 + rng.range(-3, 3)).clamp(lo, hi) as i32).collect();
+            recipe.push_str(&format!("+stereo8({fam})"));
+            chans.push(r);
+            continue;
+        }
         if channels == 2 && ch == 1 && (1..=4).contains(&stereo_mode) {
             let l = &chans[0];
             let lo = smin(bps) as i64;
@@ -440,6 +467,9 @@ pub enum Fault {
         ch: usize,
         value: i32,
     },
+    /// the k-th read hands over a block that is not a whole number of inter-channel samples
+    /// (`extra` stray values appended; only meaningful for more than one channel)
+    RaggedAt { read: usize, extra: usize },
 }
 
 /// Instrumented `Source` over in-memory audio.
@@ -461,6 +491,10 @@ pub struct TestSource {
     /// k > 0: every k-th read (1-based) delivers only half of the requested block although
     /// more input is available (a pipe / socket style source)
     pub short_reads: usize,
+    /// at the end of the input return Ok(0) WITHOUT an empty fill (both styles are legal)
+    pub bare_eof: bool,
+    /// added to the length hint (a hint is only a hint: it may be off)
+    pub hint_bias: isize,
     /// (read index, milliseconds): the source blocks that long before delivering that read
     /// (a real-time capture / network source that stalls)
     pub stall: Option<(usize, u64)>,
@@ -480,6 +514,8 @@ impl TestSource {
             report: None,
             bytes_per_sample: None,
             short_reads: 0,
+            bare_eof: false,
+            hint_bias: 0,
             stall: None,
         }
     }
@@ -528,6 +564,10 @@ impl Source for TestSource {
         }
         let ch = self.audio.channels;
         let total = self.audio.frames();
+        if self.bare_eof && total == self.pos {
+            self.log.push(0);
+            return Ok(0);
+        }
         let mut n = block_size.min(total - self.pos);
         let short_reads = if matches!(self.mode, FillMode::IntShort | FillMode::BytesShort) && self.short_reads == 0 { 3 } else { self.short_reads };
         if short_reads > 0 && (k + 1) % short_reads == 0 && n > 1 {
@@ -545,6 +585,16 @@ impl Source for TestSource {
                         _ => n - 1,
                     };
                     v[t * ch + (*c % ch)] = *value;
+                }
+            }
+        }
+        for f in &self.faults {
+            if let Fault::RaggedAt { read, extra } = f {
+                if *read == k && ch > 1 {
+                    let v = owned.get_or_insert_with(|| slice.to_vec());
+                    for _ in 0..(*extra).min(ch - 1).max(1) {
+                        v.push(1);
+                    }
                 }
             }
         }
@@ -567,7 +617,7 @@ impl Source for TestSource {
         Ok(n)
     }
     fn len_hint(&self) -> Option<usize> {
-        self.hint.then(|| self.audio.frames())
+        self.hint.then(|| (self.audio.frames() as isize + self.hint_bias).max(0) as usize)
     }
 }
 
